@@ -71,7 +71,50 @@ struct P<'a> {
     note: &'a str,
 }
 
+#[derive(Debug, serde::Serialize)]
+#[serde(tag = "method", content = "parameters")]
+enum Method {
+    #[serde(rename = "org.example.Put")]
+    Put { name: String, value: u64 },
+}
+
+/// Outbound with the production limit: `calls` pipelined calls of `size` payload bytes each, then
+/// one flush (or, with calls == 1, a single send): reports the transport write calls.
+fn run_batch(case: &Value) -> Value {
+    use zlink_core::Call;
+    let calls = case["calls"].as_u64().unwrap() as usize;
+    let size = case["size"].as_u64().unwrap() as usize;
+    let (sock, sh) = zv::SSocket::new(Default::default());
+    let mut conn = Connection::new(sock);
+    let mut expected: Vec<u8> = Vec::new();
+    for i in 0..calls {
+        let c = Call::new(Method::Put { name: "x".repeat(size), value: i as u64 });
+        expected.extend(serde_json::to_vec(&c).unwrap());
+        expected.push(0);
+        if let Err(e) = conn.enqueue_call(&c) {
+            return json!({"id": case["id"], "res": err_name(&e)});
+        }
+    }
+    let res = {
+        let fut = conn.flush();
+        let mut fut = std::pin::pin!(fut);
+        match poll_once(fut.as_mut()) {
+            Poll::Ready(Ok(())) => "ok".to_string(),
+            Poll::Ready(Err(e)) => err_name(&e),
+            Poll::Pending => "pending".to_string(),
+        }
+    };
+    let s = sh.borrow();
+    let total: Vec<u8> = s.writes.iter().flatten().copied().collect();
+    json!({"id": case["id"], "res": res, "writes": s.writes.len(), "bytes": total.len(),
+           "expected_bytes": expected.len(), "content_ok": total == expected,
+           "write_sizes": s.writes.iter().map(|w| w.len()).collect::<Vec<_>>()})
+}
+
 fn run_case(case: &Value) -> Value {
+    if case["kind"] == "batch" {
+        return run_batch(case);
+    }
     let size = case["size"].as_u64().unwrap() as usize;
     let consumed = std::rc::Rc::new(std::cell::Cell::new(0));
     let g = Gen { total: size, pos: 0, chunk: case["chunk"].as_u64().unwrap() as usize,
